@@ -6,6 +6,7 @@ package main
 // strings instead and compared in sign with the dpkg reference.
 
 import (
+	"strings"
 	"fmt"
 
 	"gdsa/refs/dpkgorder"
@@ -112,7 +113,17 @@ func comparatorBounded(p *Prog, impl *ssa.Function) *cmpBounded {
 // compareWhole: bounded check of version.Compare itself (used when no separate run comparator can be
 // located in it): pairs of versions whose upstream parts run through the family of comparatorBounded, and
 // every combination of two epochs, two upstream parts and three revisions for the composition.
+// compareLimits: Compare, interpreted as a whole on exact versions, on parts far longer than any plausible buffer
+// or cap and on digit runs beyond 32 and 64 bits: Policy and dpkg bound neither.
+func compareLimits(p *Prog) *cmpBounded {
+	return compareFamily(p, true)
+}
+
 func compareWhole(p *Prog) *cmpBounded {
+	return compareFamily(p, false)
+}
+
+func compareFamily(p *Prog, limits bool) *cmpBounded {
 	res := &cmpBounded{}
 	fn := p.Func("version", "Compare")
 	vt := p.Named("version", "Version")
@@ -178,6 +189,21 @@ func compareWhole(p *Prog) *cmpBounded {
 		}
 		res.undecided = fmt.Sprintf("Compare(%v, %v): %s", a, b, out[0].Msg)
 		return false
+	}
+	if limits {
+		lead := "1." + strings.Repeat("0.", 150)
+		tail := strings.Repeat("a", 300)
+		parts := []string{lead + "1", lead + "2", lead + "1~rc1", lead + "1+b1", lead + "9", lead + "10", tail + "a", tail + "b", tail, tail + "~",
+			"18446744073709551615", "18446744073709551616", "18446744073709551617", "18446744073709551616+b1", "99999999999999999999999", "100000000000000000000000", "00000000000000000000001", "1",
+			"2147483647", "2147483648", "4294967295", "4294967296", "4294967297", "3000000000", "20221231235959", "20240101120000", "9223372036854775807", "9223372036854775808"}
+		for _, a := range parts {
+			for _, b := range parts {
+				if !run(ver{0, a, ""}, ver{0, b, ""}) || !run(ver{0, "1.0", a}, ver{0, "1.0", b}) {
+					return res
+				}
+			}
+		}
+		return res
 	}
 	sigma := []byte("01a~+")
 	var short []string
